@@ -15,6 +15,7 @@ mod nameres;
 mod replay;
 mod stacks;
 mod tables;
+mod transport;
 mod util;
 mod values;
 mod vmtrace;
@@ -48,6 +49,8 @@ fn main() {
         "life-drive" => vmtrace::life_drive(rest),
         "bc-drive" => bytecode::drive(rest),
         "bc-run" => util::run_cases(rest, bytecode::run_case),
+        "transport-drive" => transport::drive(rest),
+        "transport-values" => transport::values(rest),
         "cards-show" => drive::show(rest),
         "table-replay" => util::run_cases(rest, tables::replay_case),
         "table-drive" => tables::drive(rest),
